@@ -53,6 +53,9 @@ deriving Repr, DecidableEq, Inhabited
 
 inductive Act where
   | close | unref | keep | hide | unhide | raise | raiseFront | lower | lowerBack | focus | stealOn | stealOff
+  /-- `tickit_window_set_geometry(win, current rect + (dtop, dleft, dlines, dcols))`: a window is moved / resized from
+      inside the dispatch (no ON_GEOMCHANGE handlers are bound, so the event runs nothing). -/
+  | geom (dtop dleft dlines dcols : Int)
 deriving Repr, DecidableEq, Inhabited
 
 structure Action where
@@ -276,7 +279,12 @@ def allowed (st : St) (a : Action) : Bool :=
     match a.act with
     | .unref => decide (0 < st.owned.getD a.win 0) && a.win != 0 && w.children.isEmpty
     | .raise | .raiseFront | .lower | .lowerBack | .focus => attached t (treeFuel t) a.win
+    | .geom .. => a.win != 0
     | _ => true
+
+/-- `win->rect = geom` of `tickit_window_set_geometry`, with the new rectangle given relative to the old one. -/
+def moveRect (dt dl dn dc : Int) (w : Win) : Win :=
+  { w with rect := ⟨w.rect.top + dt, w.rect.left + dl, w.rect.lines + dn, w.rect.cols + dc⟩ }
 
 def doAction (st : St) (a : Action) : Res St :=
   if !allowed st a then pure (st.say (.refused a)) else
@@ -295,6 +303,7 @@ def doAction (st : St) (a : Action) : Res St :=
   | .focus => do let t ← takeFocus t a.win; pure { st with tree := t }
   | .stealOn => do let t ← modify t a.win (fun w => { w with stealInput := true }); pure { st with tree := t }
   | .stealOff => do let t ← modify t a.win (fun w => { w with stealInput := false }); pure { st with tree := t }
+  | .geom dt dl dn dc => do let t ← modify t a.win (moveRect dt dl dn dc); pure { st with tree := t }
 
 def doActions (st : St) : List Action → Res St
   | [] => pure st
